@@ -351,7 +351,7 @@ def run(ctx):
         r.vectors, r.stdout = [], ""
     if not quick:
         # 5 nodes: random walks through Build and the rest of the machine (invariants checked, cases emitted)
-        r = ctx.gen("mc/MC_TypeGraph", "gen/Gen_TypeGraph.cfg", simulate=3000, depth=40, label="simulate N<=5",
+        r = ctx.gen("mc/MC_TypeGraph", "gen/Gen_TypeGraph.cfg", simulate=400, depth=40, label="simulate N<=5",
                     consts=dict(N=5, K=3, Leaves='{"string", "int"}', UKinds='{"user", "result"}', Modes='{"hash", "dup"}', Decos="{0, 1, 3}",
                                 MaxSteps=5, Script='"free"'), timeout=3000)
         replay_vectors(ctx, r.vectors, seen, nontrivial, "simulate")
